@@ -83,6 +83,14 @@ fn exprs() -> Vec<String> {
             "1 .p",
             "(1).p",
             "1.5.p",
+            "(1.5).p",
+            "(0.25).toFixed",
+            "(2.0).p",
+            "(1.5)[a]",
+            "(1.5).p.q + a",
+            "(-1.5).p",
+            "(1e-7).p",
+            "(.5).constructor.name",
             "a + 'it''s'",
             "a + \"q'\"",
             "a + 'x\\ny'",
